@@ -112,32 +112,7 @@ func runC01(r *Report, tier string) {
 		})
 		o4.check(bad == "", "only CBOR modes and in-package helpers", "the signed bytes depend on "+bad)
 	}
-	// R01.5: computing ToBeSigned leaves the object as it was: the builder's
-	// call tree writes no memory that existed before the call (a second
-	// computation - verify after sign, verify twice, countersign then verify -
-	// must see the same bytes)
-	{
-		seenB := map[*ssa.Function]bool{}
-		nb := 0
-		for _, st := range sites {
-			raw := P.terms.of(st.content)
-			if !(raw.Op == "res" && len(raw.Args) == 1 && raw.Args[0].Op == "call") {
-				continue
-			}
-			bf := P.calleeOfTerm(raw.Args[0])
-			if bf == nil || seenB[bf] {
-				continue
-			}
-			seenB[bf] = true
-			nb++
-			var ws []string
-			for _, w := range P.effects.summary(bf).writes {
-				ws = append(ws, w.loc().String()+" at "+P.instrPos(w.instr))
-			}
-			r.ob("R01.5", shortFn(bf)+":observer", bf, nil, "the ToBeSigned builder and everything it calls write nothing that existed before the call").check(len(ws) == 0, "no writes to pre-existing memory", "the builder writes "+strings.Join(ws, "; "))
-		}
-		r.floor("R01.5", nb, 3, "ToBeSigned builders")
-	}
+	checkBuilderPurity(r, "R01.5")
 	// delegation of untagged / COSE_Sign is R02.1's; here: SignMessage elements use the Signature methods (R11.4)
 	checkNoWriteAfterBuilder(r, "R01.2")
 	// "after a wire round trip": what the encoders can emit under the
@@ -205,5 +180,37 @@ func mutC01() []mutant {
 			Old: "\tvar s []byte\n\t_ = decModeWithTagsForbidden.Unmarshal(data, &s)\n\treturn encMode.Marshal(s)", New: "\tvar s []byte\n\t_ = decModeWithTagsForbidden.Unmarshal(data, &s)\n\tout, err := encMode.Marshal(s)\n\tif err == nil {\n\t\tcopy(data, out)\n\t}\n\treturn out, err"},
 		{Name: "payload slot type loses nil", File: "sign1.go", Rule: "R01.3",
 			Old: "\tPayload     byteString\n\tSignature   byteString\n}\n\n// sign1MessagePrefix", New: "\tPayload     []byte\n\tSignature   byteString\n}\n\n// sign1MessagePrefix"},
+	}
+}
+
+// checkBuilderPurity: R01.5 - computing ToBeSigned leaves the object as it
+// was: the builder's call tree writes no memory that existed before the call
+// (a second computation - verify after sign, verify twice, the next signer of
+// a COSE_Sign sharing the body bytes, countersign then verify, encode after
+// verify - must see the same bytes).
+func checkBuilderPurity(r *Report, rule string) {
+	P := r.P
+	sites := P.keySites()
+	{
+		seenB := map[*ssa.Function]bool{}
+		nb := 0
+		for _, st := range sites {
+			raw := P.terms.of(st.content)
+			if !(raw.Op == "res" && len(raw.Args) == 1 && raw.Args[0].Op == "call") {
+				continue
+			}
+			bf := P.calleeOfTerm(raw.Args[0])
+			if bf == nil || seenB[bf] {
+				continue
+			}
+			seenB[bf] = true
+			nb++
+			var ws []string
+			for _, w := range P.effects.summary(bf).writes {
+				ws = append(ws, w.loc().String()+" at "+P.instrPos(w.instr))
+			}
+			r.ob(rule, shortFn(bf)+":observer", bf, nil, "the ToBeSigned builder and everything it calls write nothing that existed before the call").check(len(ws) == 0, "no writes to pre-existing memory", "the builder writes "+strings.Join(ws, "; "))
+		}
+		r.floor(rule, nb, 3, "ToBeSigned builders")
 	}
 }
